@@ -5,8 +5,12 @@
    unsigned-varint 0.8, `Version::try_from`, `u8::try_from`), `block_to_response`
    (`Code::try_from` + `digest`, `Multihash::wrap` (<= 64 bytes), `Cid::new` with the CIDv0 rules
    of the crate cid 0.11) and the payload loop of `on_message_received`.
-   Sending side: `Prefix::to_bytes`, `blocks_message` (protobuf `encoded_len` arithmetic),
-   `extract_next_batch` and the `while let` loop of `send_response`.
+   Sending side: `Prefix::to_bytes`, `blocks_message` / `presences_message` (protobuf
+   `encoded_len` arithmetic), `extract_next_batch`, `extract_next_presence_batch` and the two
+   `while let` loops of `send_response`; `send_request` (the wantlist a request becomes).
+   Whole messages: the CID byte codec (`Cid::to_bytes` / `Cid::read_bytes` of the crate cid 0.11),
+   the wantlist, payload and presence parts of `on_message_received`, the events one message
+   and one inbound substream produce.
 
    Abstractions (all diffed by the correspondence harness):
    - bytes are numbers (N) below 256; block payloads are abstract (a type D on the receiving side,
@@ -232,3 +236,357 @@ Definition sb_elen (b : sblock) : N := entry_len (N.of_nat (length (sb_prefix b)
 (* the blocks of send_response(entries) as they go out, message by message *)
 Definition send_response_blocks (mb mm : N) (l : list sblock) : list (list sblock) :=
   sent_batches sblock sb_dlen sb_elen mb mm l.
+
+(* ------------------------------------------------------------------ CID bytes *)
+
+(* Cid::to_bytes: a CIDv0 is the bare multihash, a CIDv1 is version, codec, multihash;
+   Multihash::write is code, size, digest *)
+Definition multihash_bytes (code : N) (dg : list N) : list N :=
+  varint_enc code ++ varint_enc (N.of_nat (length dg)) ++ dg.
+
+Definition cid_to_bytes (c : cid) : list N :=
+  if c_version c =? 0 then multihash_bytes (c_code c) (c_digest c)
+  else varint_enc (c_version c) ++ varint_enc (c_codec c) ++ multihash_bytes (c_code c) (c_digest c).
+
+(* io::Read::read_exact on a slice *)
+Definition take_exact (n : nat) (l : list N) : option (list N) :=
+  if Nat.leb n (length l) then Some (firstn n l) else None.
+
+(* Cid::read_bytes (varint_read_u64 behaves as varint_dec; bytes after the CID are not looked at):
+   the fixed start 0x12 0x20 is a CIDv0 with a 32-byte digest; otherwise the version must be 1
+   (an explicit version 0 is InvalidExplicitCidV0) and Multihash::<64>::read follows *)
+Definition cid_read_bytes (l : list N) : option cid :=
+  match varint_dec l with
+  | None => None
+  | Some (v, r1) =>
+  match varint_dec r1 with
+  | None => None
+  | Some (c, r2) =>
+      if (v =? 18) && (c =? 32) then
+        match take_exact 32 r2 with
+        | Some dg => Some (mkCid 0 DAG_PB SHA2_256 dg)
+        | None => None
+        end
+      else if v =? 1 then
+        match varint_dec r2 with
+        | None => None
+        | Some (code, r3) =>
+        match varint_dec r3 with
+        | None => None
+        | Some (size, r4) =>
+            if size <=? 64 then
+              match take_exact (N.to_nat size) r4 with
+              | Some dg => Some (mkCid 1 c code dg)
+              | None => None
+              end
+            else None
+        end end
+      else None
+  end end.
+
+(* ------------------------------------------------------------------ wantlists *)
+
+Inductive want_type := WBlock | WHave.
+Inductive presence_type := PHave | PDontHave.
+
+Definition want_code (w : want_type) : N := match w with WBlock => 0 | WHave => 1 end.
+Definition presence_code (p : presence_type) : N := match p with PHave => 0 | PDontHave => 1 end.
+
+(* schema::bitswap::wantlist::Entry *)
+Record wl_entry := mkWE {
+  we_block : list N;          (* CID bytes *)
+  we_priority : N;
+  we_cancel : bool;
+  we_wanttype : N;            (* int32 on the wire: anything but 0 and 1 is unknown *)
+  we_senddonthave : bool
+}.
+
+(* send_request: one entry per wanted CID, priority 1, nothing else set; `full` is false *)
+Definition request_entry (cw : cid * want_type) : wl_entry :=
+  mkWE (cid_to_bytes (fst cw)) 1 false (want_code (snd cw)) false.
+Definition request_entries (cids : list (cid * want_type)) : list wl_entry := map request_entry cids.
+
+(* the filter_map of on_message_received over wantlist entries: priority, cancel and
+   sendDontHave are not looked at *)
+Definition entry_want (e : wl_entry) : option (cid * want_type) :=
+  match cid_read_bytes (we_block e) with
+  | None => None
+  | Some c =>
+      if we_wanttype e =? 0 then Some (c, WBlock)
+      else if we_wanttype e =? 1 then Some (c, WHave)
+      else None
+  end.
+
+Definition opt_list {X} (o : option X) : list X := match o with Some x => [x] | None => [] end.
+
+Definition inbound_wants (es : list wl_entry) : list (cid * want_type) :=
+  flat_map (fun e => opt_list (entry_want e)) es.
+
+(* a received BlockPresence { cid, type } *)
+Definition presence_of (cp : list N * N) : option (cid * presence_type) :=
+  match cid_read_bytes (fst cp) with
+  | None => None
+  | Some c =>
+      if snd cp =? 0 then Some (c, PHave)
+      else if snd cp =? 1 then Some (c, PDontHave)
+      else None
+  end.
+
+(* ------------------------------------------------------------------ whole messages *)
+
+Section Messages.
+  Variable D : Type.
+  Variable digest : N -> D -> option (list N).
+
+  (* a decoded schema::bitswap::Message (the legacy `blocks` field and `pendingBytes` are ignored
+     by the code and not modelled) *)
+  Record message := mkMsg {
+    m_wantlist : option (list wl_entry);        (* `full` is ignored by the code *)
+    m_payload : list (list N * D);
+    m_presences : list (list N * N)
+  }.
+
+  Inductive response :=
+  | RBlock (c : cid) (d : D)
+  | RPresence (c : cid) (p : presence_type).
+
+  Inductive event :=
+  | ERequest (cids : list (cid * want_type))
+  | EResponse (rs : list response).
+
+  Definition msg_responses (m : message) : list response :=
+    map (fun r => RBlock (fst r) (snd r)) (responses D digest (m_payload m)) ++
+    flat_map (fun cp => match presence_of cp with
+                        | Some (c, p) => [RPresence c p]
+                        | None => []
+                        end) (m_presences m).
+
+  (* on_message_received after a successful protobuf decode: at most one Request event, then at
+     most one Response event *)
+  Definition msg_events (m : message) : list event :=
+    match m_wantlist m with
+    | Some es => match inbound_wants es with [] => [] | ws => [ERequest ws] end
+    | None => []
+    end ++
+    match msg_responses m with [] => [] | rs => [EResponse rs] end.
+
+  (* What arrives on one inbound substream: complete frames that decode, until something else
+     happens — a frame that does not decode as protobuf (on_message_received returns Err), a
+     length prefix above the limit or malformed (the substream yields Err), the peer closing
+     or resetting in the middle of a frame or between frames (the substream ends).  In all of
+     these cases the substream is removed and nothing more is read from it. *)
+  Inductive in_item := IFrame (m : message) | IBad.
+
+  Fixpoint inbound_events (items : list in_item) : list event :=
+    match items with
+    | [] => []
+    | IFrame m :: t => msg_events m ++ inbound_events t
+    | IBad :: _ => []
+    end.
+
+  (* blocks handed to the user by a list of events *)
+  Definition event_blocks (e : event) : list (cid * D) :=
+    match e with
+    | ERequest _ => []
+    | EResponse rs => flat_map (fun r => match r with RBlock c d => [(c, d)] | RPresence _ _ => [] end) rs
+    end.
+
+  (* ---- a session: the user asks for CIDs, messages arrive (from any peer, in any order) ---- *)
+  Inductive sess_op :=
+  | SRequest (cids : list (cid * want_type))      (* BitswapHandle::send_request *)
+  | SIncoming (m : message).                      (* a decodable frame on some inbound substream *)
+
+  (* litep2p keeps no record of what was asked for: the events depend on the incoming messages only *)
+  Definition session_events (ops : list sess_op) : list event :=
+    flat_map (fun o => match o with SRequest _ => [] | SIncoming m => msg_events m end) ops.
+
+  Definition requested (ops : list sess_op) : list cid :=
+    flat_map (fun o => match o with SRequest cids => map fst cids | SIncoming _ => [] end) ops.
+End Messages.
+
+Arguments mkMsg {D}.
+Arguments m_wantlist {D}.
+Arguments m_payload {D}.
+Arguments m_presences {D}.
+Arguments RBlock {D}.
+Arguments RPresence {D}.
+Arguments ERequest {D}.
+Arguments EResponse {D}.
+Arguments IFrame {D}.
+Arguments IBad {D}.
+Arguments SRequest {D}.
+Arguments SIncoming {D}.
+
+(* ------------------------------------------------------------------ a client with a want set *)
+
+(* NOT part of litep2p: the bookkeeping a user of BitswapHandle needs in order to accept only
+   what it asked for — a set of wanted CIDs, a block is accepted when its CID is wanted and the
+   CID is then no longer wanted.  The theorems about it show what self-certification buys. *)
+Definition cid_eqb (a b : cid) : bool :=
+  (c_version a =? c_version b) && (c_codec a =? c_codec b) && (c_code a =? c_code b) &&
+  (fix eqb (x y : list N) : bool :=
+     match x, y with
+     | [], [] => true
+     | p :: x', q :: y' => (p =? q) && eqb x' y'
+     | _, _ => false
+     end) (c_digest a) (c_digest b).
+
+Definition cid_mem (c : cid) (l : list cid) : bool := existsb (cid_eqb c) l.
+Definition cid_remove (c : cid) (l : list cid) : list cid := filter (fun x => negb (cid_eqb c x)) l.
+
+Section WantFilter.
+  Variable D : Type.
+  Variable digest : N -> D -> option (list N).
+
+  Fixpoint accept_blocks (want : list cid) (bs : list (cid * D)) : list cid * list (cid * D) :=
+    match bs with
+    | [] => (want, [])
+    | (c, d) :: t =>
+        if cid_mem c want
+        then let '(w, acc) := accept_blocks (cid_remove c want) t in (w, (c, d) :: acc)
+        else accept_blocks want t
+    end.
+
+  Fixpoint client_run (want : list cid) (ops : list (sess_op D)) : list (cid * D) :=
+    match ops with
+    | [] => []
+    | SRequest cids :: t => client_run (want ++ map fst cids) t
+    | SIncoming m :: t =>
+        let '(w, acc) := accept_blocks want (flat_map (event_blocks D) (msg_events D digest m)) in
+        acc ++ client_run w t
+    end.
+End WantFilter.
+
+(* ------------------------------------------------------------------ sending presences and requests *)
+
+(* one entry of `repeated BlockPresence blockPresences = 4`: the CID bytes field and the
+   `type` field (int32, omitted when 0 = Have, otherwise tag + one byte) *)
+Definition presence_elen (cidlen ptype : N) : N :=
+  let b := field_len cidlen + (if ptype =? 0 then 0 else 2) in 1 + vlen b + b.
+
+Record spres := mkSP { sp_id : N; sp_cid : cid; sp_type : presence_type }.
+
+Definition sp_elen (p : spres) : N :=
+  presence_elen (N.of_nat (length (cid_to_bytes (sp_cid p)))) (presence_code (sp_type p)).
+
+(* the presences of send_response(entries) as they go out, message by message: the batching of
+   extract_next_presence_batch is the block batching without a data limit *)
+Definition send_response_presences (mm : N) (l : list spres) : list (list spres) :=
+  sent_batches spres (fun _ => 0) sp_elen 0 mm l.
+
+(* one entry of `repeated Entry entries = 1` of the wantlist built by send_request:
+   block bytes, priority = 1 (tag + byte), wantType (omitted when 0 = Block) *)
+Definition want_elen (cidlen wtype : N) : N :=
+  let b := field_len cidlen + 2 + (if wtype =? 0 then 0 else 2) in 1 + vlen b + b.
+
+(* encoded length of the message send_request builds: only the wantlist field *)
+Definition request_len (cids : list (cid * want_type)) : N :=
+  let w := sum (map (fun cw => want_elen (N.of_nat (length (cid_to_bytes (fst cw)))) (want_code (snd cw))) cids) in
+  1 + vlen w + w.
+
+(* ------------------------------------------------------------------ the event loop: actions and substreams *)
+
+(* What the user asks the loop to send to a peer: BitswapCommand::SendRequest / SendResponse.
+   A response is given as its presences and its blocks (send_response separates them, keeping
+   the order within each kind). *)
+Inductive action :=
+| ARequest (cids : list (cid * want_type))
+| AResponse (ps : list spres) (bs : list sblock).
+
+(* one message written to a substream *)
+Inductive omsg :=
+| ORequest (cids : list (cid * want_type))
+| OPresences (l : list spres)
+| OBlocks (l : list sblock).
+
+Definition omsg_len (m : omsg) : N :=
+  match m with
+  | ORequest cids => request_len cids
+  | OPresences l => message_len spres sp_elen l
+  | OBlocks l => message_len sblock sb_elen l
+  end.
+
+(* a frame of the unsigned-varint codec: length prefix + message *)
+Definition frame_len (m : omsg) : N := vlen (omsg_len m) + omsg_len m.
+
+(* send_request writes one message, send_response the presence messages then the block messages *)
+Definition action_msgs (mb mm : N) (a : action) : list omsg :=
+  match a with
+  | ARequest cids => [ORequest cids]
+  | AResponse ps bs =>
+      map OPresences (send_response_presences mm ps) ++ map OBlocks (send_response_blocks mb mm bs)
+  end.
+
+(* A substream towards a peer as the sender sees it: it takes `budget` more bytes (None = any
+   number) and then either stalls — the write never completes and WRITE_TIMEOUT fires — or
+   fails.  Either way send_request / send_response return an error. *)
+Definition carrier := option N.
+
+(* Writing messages one after the other (each: write_all(length), write_all(body), flush) into a
+   carrier: the messages written completely, the bytes written of the first message that did
+   not fit, the carrier afterwards, and whether everything was written.  A message above the
+   codec's limit `mm` is refused by send_framed before anything is written. *)
+Fixpoint write_msgs (mm : N) (c : carrier) (ms : list omsg) : list omsg * N * carrier * bool :=
+  match ms with
+  | [] => ([], 0, c, true)
+  | m :: t =>
+      if mm <? omsg_len m then ([], 0, c, false)
+      else
+        match c with
+        | None => let '(done, part, c', ok) := write_msgs mm None t in (m :: done, part, c', ok)
+        | Some b =>
+            if frame_len m <=? b
+            then let '(done, part, c', ok) := write_msgs mm (Some (b - frame_len m)) t in
+                 (m :: done, part, c', ok)
+            else ([], b, Some 0, false)
+        end
+  end.
+
+(* per-peer state of the loop (the connection is established) *)
+Record pstate := mkPS {
+  ps_inb : bool;                 (* `inbound` holds a substream of this peer *)
+  ps_out : option carrier;       (* `outbound` holds a substream to this peer *)
+  ps_pend : list action;         (* `pending_outbound` *)
+  ps_opening : bool              (* an outbound substream was requested (`pending_substreams`) *)
+}.
+
+Definition ps_init : pstate := mkPS false None [] false.
+
+(* what one step wrote: complete messages and the bytes of a partial one *)
+Definition written := (list omsg * N)%type.
+
+(* writing a list of actions to a fresh substream (on_outbound_substream): stop at the first
+   action that fails; the substream is kept only when all succeeded *)
+Fixpoint write_actions (mb mm : N) (c : carrier) (acts : list action) : list omsg * N * carrier * bool :=
+  match acts with
+  | [] => ([], 0, c, true)
+  | a :: t =>
+      let '(done, part, c', ok) := write_msgs mm c (action_msgs mb mm a) in
+      if ok
+      then let '(done2, part2, c2, ok2) := write_actions mb mm c' t in (done ++ done2, part2, c2, ok2)
+      else (done, part, c', false)
+  end.
+
+(* on_bitswap_request / on_bitswap_response *)
+Definition send_action (mb mm : N) (s : pstate) (a : action) : pstate * written :=
+  let queue (s0 : pstate) :=
+    mkPS (ps_inb s0) (ps_out s0) (ps_pend s0 ++ [a])
+         (match ps_pend s0 with [] => true | _ => ps_opening s0 end) in
+  match ps_out s with
+  | Some c =>
+      let '(done, part, c', ok) := write_msgs mm c (action_msgs mb mm a) in
+      if ok then (mkPS (ps_inb s) (Some c') (ps_pend s) (ps_opening s), (done, part))
+      else (queue (mkPS (ps_inb s) None (ps_pend s) (ps_opening s)), (done, part))
+  | None => (queue s, ([], 0))
+  end.
+
+(* TransportEvent::SubstreamOpened (outbound) for the requested substream *)
+Definition outbound_opened (mb mm : N) (s : pstate) (c : carrier) : pstate * written :=
+  if ps_opening s then
+    let '(done, part, c', ok) := write_actions mb mm c (ps_pend s) in
+    (mkPS (ps_inb s) (if ok then Some c' else ps_out s) [] false, (done, part))
+  else (s, ([], 0)).
+
+(* TransportEvent::SubstreamOpenFailure for the requested substream *)
+Definition outbound_failed (s : pstate) : pstate :=
+  if ps_opening s then mkPS (ps_inb s) (ps_out s) [] false else s.
